@@ -63,6 +63,13 @@ TRUSTED = [
     "harness/c11.py + harness/dfgen.py (generator, plain-Python readers, reference cache automaton)",
 ]
 ASSUMPTIONS = [
+    "raise demands: the oracle demands a raise ONLY for 'a cache file cut short at any point raises an error instead of "
+    "loading partial data' (keys trunc:*, hist:no-raise-on-cut-cache, hist:raise-but-materialized, hist:cut-file-loads). "
+    "Everywhere else the current code's raises are NOT demanded: crafted inconsistent payloads and frames holding the "
+    "wrong container class may raise or return something self-consistent / not silently different; statistics "
+    "lacking a column may be refused or accepted self-consistently; a file of an older layout may be refused; a derived "
+    "dataset's materialize(path) may be refused; convert on an unmaterialized dataset may work; in those cases the "
+    "Coq term is not compared when the implementation returns normally where the model mirrors today's raise",
     "two clauses of the property rest on the Section hypotheses about torch's codec, not on a proof about bytes: "
     "'loading returns equal tensor CONTENTS and equal statistics VALUES' is H_dec_enc (tensors and statistics are "
     "opaque to the model) and 'a file cut short at any point raises' is H_load_prefix_fails "
@@ -85,21 +92,35 @@ ASSUMPTIONS = [
 # (clause of the property, oracle keys that report its failure, where the generator draws it)
 CLAUSES = [
     ("save -> load returns an equal frame: every stype, views produced by slicing, empty frames, frames without target",
-     "save-raises, load-raises, frame-differs:*, tf-neq, source-modified, device-differs, reuse:*",
-     "saveload + reuse cases (variants whole/slice/slice2/index/catrows/catcols/catself/empty/featureless), boundary stream"),
+     "save-raises, load-raises [backed: 'loading it back RETURNS an equal frame' -- a raise cannot satisfy it], "
+     "frame-differs:*, tf-neq, source-modified, device-differs, reuse:*, gens:* (incl. gens:selection-of-loaded-raises: "
+     "the loaded frame must be 'equal', so it must support what the saved one supports)",
+     "saveload + reuse + gens cases (variants whole/slice/slice2/index/catrows/catcols/catself/empty/featureless/"
+     "handbuilt), boundary stream"),
     ("... and equal statistics (value AND container/scalar types)", "stats-differ, stats-types-differ",
      "same cases, with_stats on/off, load(device omitted | 'cpu' | torch.device)"),
     ("materializing with a cache path writes such a file", "hist:no-file-written[:supplied-stats], hist:cache-file-differs, "
      "trunc:write-failed, trunc:control", "history events mat/new/rewrite with path x fresh/materialized x col_stats= x device="),
     ("a later materialization with that path returns the same TensorFrame and statistics as a fresh computation",
-     "hist:materialize-raises:*, hist:cached-differs:*, hist:stale-after-rewrite, hist:derived-overwrote-cache, "
-     "hist:restore-rewrote-cache, hist:file-touched", "history events new/newdf/derived/rewrite after mat(path)"),
+     "hist:materialize-raises:* [backed: it 'RETURNS the same TensorFrame and statistics'], hist:cached-differs:*, "
+     "hist:stale-after-rewrite, hist:derived-overwrote-cache, hist:restore-rewrote-cache, hist:file-touched",
+     "history events new/newdf/derived/rewrite after mat(path)"),
     ("a dataset restored from the cache converts new data exactly like the original",
-     "hist:convert-raises, hist:restored-converter-differs, hist:convert-before-materialize", "conv events (1 row, repeated row, all rows, shifted columns)"),
-    ("a cache file cut short at any point raises instead of loading partial data",
-     "trunc:load-partial, trunc:prefix-loads, trunc:materialize-partial, trunc:materialize-no-raise, "
-     "hist:no-raise-on-cut-cache, hist:raise-but-materialized, hist:cut-cache-rewritten, hist:cut-file-loads",
+     "hist:convert-raises [backed: 'converts new data exactly like the original', which converts], "
+     "hist:restored-converter-differs", "conv events (1 row, repeated row, all rows, shifted columns)"),
+    ("a cache file cut short at any point raises an error instead of loading partial data",
+     "the ONLY must-raise demands of this oracle, all backed by these words: trunc:load-partial, trunc:prefix-loads, "
+     "trunc:materialize-partial, trunc:materialize-no-raise, hist:no-raise-on-cut-cache, hist:cut-file-loads; "
+     "hist:raise-but-materialized [a dataset that reports is_materialized after the raise HAS loaded partial data]",
      "trunc cases (all k thorough / 64 stratified quick), crash and cut events"),
+    ("(not in the statement) inconsistent payloads, wrong container classes, incomplete supplied statistics, older file "
+     "layouts, derived datasets' materialize, convert before materialize",
+     "NO raise demanded: crafted:inconsistent-frame / crafted:old-format-differs / malformed:silently-different / "
+     "hist:incomplete-supplied-stats-inconsistent fire only when the call RETURNS something inconsistent with itself or "
+     "silently different; a raise is always accepted (relaxed: crafted:old-format-rejected, "
+     "hist:bad-supplied-stats-accepted, hist:failed-materialize-left-cache, hist:derived-materialize-raises, "
+     "hist:cut-cache-rewritten, hist:convert-before-materialize were removed)",
+     "crafted / malformed kinds, badstats / derived / conv events"),
 ]
 
 # Boundaries of the dimensions in QUANTIFIED OVER (inputs x histories x crash points).  Each entry is hit
@@ -187,7 +208,7 @@ ERROR_PATHS = [
     ("io.load: `tf_dict, col_stats = ...` unpacking of the pickled pair", "crafted:payload-not-a-pair",
      "crafted:inconsistent-frame"),
     ("io.load: TensorFrame( **tf_dict ) default num_rows=None for files written before the key existed",
-     "crafted:old-format-no-num_rows", "crafted:old-format-rejected / crafted:old-format-differs"),
+     "crafted:old-format-no-num_rows", "crafted:old-format-differs (a raise is accepted)"),
     ("io.load: try torch.load(weights_only=True) / except UnpicklingError with 'add_safe_globals' -> warn + "
      "weights_only=False", "saveload/reuse/history with statistics holding numpy scalars (error_paths: weights-only-fallback)",
      "load-raises, hist:materialize-raises:complete"),
@@ -210,7 +231,7 @@ ERROR_PATHS = [
      "force_target + supplied statistics in reversed / raw order (error_paths: unsorted-supplied-target)",
      "hist:cached-differs:stats|y, hist:restored-converter-differs"),
     ("Dataset.materialize: asserts on supplied col_stats (column missing / required statistic missing)",
-     "badstats events", "hist:bad-supplied-stats-accepted, hist:failed-materialize-left-cache"),
+     "badstats events", "hist:incomplete-supplied-stats-inconsistent (raise OR self-consistent; no bare must-raise)"),
     ("Dataset.materialize: `if path is not None: save` after the computation (both statistics sources)",
      "mat/new/rewrite with path x col_stats=", "hist:no-file-written[:supplied-stats]"),
     ("Dataset._update_col_stats: int(emb_dim_list[i]) into the statistics before they are cached",
@@ -577,7 +598,7 @@ def gen_boundaries(rng):
 
 
 def generate(rng, tier):
-    n_sl, n_h, n_t = (220, 120, 5) if tier == "quick" else (6000, 3000, 60)
+    n_sl, n_h, n_t = (160, 90, 4) if tier == "quick" else (6000, 3000, 60)
     cases = gen_boundaries(rng)
     nofr = {"n": 0, "cols": [], "target": None, "index": "range", "col_order": []}
     cases += [{"kind": "crafted", "what": w, "frame": nofr} for w in CRAFTED]
@@ -1140,8 +1161,7 @@ def oracle_crafted(case, obs):
     w = case["what"]
     if w == "old-format-no-num_rows":
         if obs["raised"]:
-            return dict(key="crafted:old-format-rejected", what=f"a cache file without the 'num_rows' key (written before "
-                        f"it existed) no longer loads: {obs['exc']} {obs['msg']}")
+            return None        # nothing in the statement demands that files of an older layout keep loading
         if obs.get("got") != obs["expected"]:
             return dict(key="crafted:old-format-differs", what="a cache file without the 'num_rows' key loads to a "
                         "different frame", expected=obs["expected"], observed=obs.get("got"))
@@ -1392,8 +1412,8 @@ def run_history(case):
                         rm(path2)
                         cur = ref.new()
             elif ev["e"] == "badstats":
-                # materialize(path, col_stats=<statistics lacking a column / a required statistic>) must fail and
-                # must not leave a cache behind
+                # materialize(path, col_stats=<statistics lacking a column / a required statistic>): the current
+                # code raises; the statement demands nothing here, so either a raise or a self-consistent result
                 if before != "absent":
                     st["skipped"] = "a cache file exists (the statistics argument is then ignored)"
                 else:
@@ -1407,8 +1427,18 @@ def run_history(case):
                         del bad[next(iter(bad))]
                     d = ref.new()
                     try:
-                        d.materialize(path=path, col_stats=bad)
-                        st["ok"] = True
+                        d.materialize(path=path, col_stats=copy.deepcopy(bad))
+                        st.update(ok=True, tf=obs_frame(d.tensor_frame), stats=stats_json(d.col_stats))
+                        # accepted: then the cache must hold exactly what this call returned, and the same
+                        # call without a path must return the same
+                        st["file"] = file_state(path, st["tf"], st["stats"])
+                        d0 = ref.new()
+                        try:
+                            d0.materialize(col_stats=copy.deepcopy(bad))
+                            st["same_without_path"] = (obs_frame(d0.tensor_frame) == st["tf"] and
+                                                       stats_json(d0.col_stats) == st["stats"])
+                        except Exception as ex:
+                            st["without_path_raises"] = C.exc_name(ex)
                     except Exception as ex:
                         st.update(ok=False, exc=C.exc_name(ex))
                     st.update(materialized_after=bool(d.is_materialized), file_after=os.path.isfile(path))
@@ -1461,6 +1491,7 @@ def run_history(case):
                 cur = ref.new()                              # the process is gone
             else:
                 d2 = conv_df(ref.df, ev)
+                st["cur_was_materialized"] = bool(cur.is_materialized)
                 try:
                     want = G.read_tf(ref.fresh.convert_to_tensor_frame(d2))
                 except Exception as ex:
@@ -1706,13 +1737,14 @@ def oracle_history_events(case, obs):
             continue
         fresh = obs["refs"][st["ref"]]     # the table the cache path stands for at this event
         if ev["e"] == "badstats":
-            if st["ok"]:
-                return dict(key="hist:bad-supplied-stats-accepted", what=f"event {i}: materialize(path, col_stats=<statistics "
-                            f"lacking a {ev['drop']}>) did not raise" + (" and wrote a cache file" if st["file_after"] else ""),
+            # NOT backed by the statement as a must-raise: a raise is fine; an accepted call must be self-consistent
+            # ("materializing with a cache path writes such a file ... same TensorFrame and statistics")
+            if st["ok"] and (st["file"] != "complete" or st.get("same_without_path") is False):
+                return dict(key="hist:incomplete-supplied-stats-inconsistent",
+                            what=f"event {i}: materialize(path, col_stats=<statistics lacking a {ev['drop']}>) returned "
+                                 f"normally but its cache file is {st['file']} w.r.t. what it returned"
+                                 f"{'' if st.get('same_without_path') is not False else ' and the same call without a path returns other data'}",
                             event=ev)
-            if st["file_after"] or st["materialized_after"]:
-                return dict(key="hist:failed-materialize-left-cache", what=f"event {i}: materialize(path, col_stats=<bad>) "
-                            f"raised {st['exc']} but left a cache file / a materialized object behind", event=ev)
             continue
         if ev["e"] == "cut":
             mat = False
@@ -1743,8 +1775,7 @@ def oracle_history_events(case, obs):
                                  f"materialize(path) and the existing cache file ({before}) was rewritten; it is now "
                                  f"{after}", expected="file untouched", observed=after, event=ev)
             if not st["ok"]:
-                return dict(key="hist:derived-materialize-raises", what=f"event {i}: materialize(path) on a derived "
-                            f"(already materialized) dataset raised {st['exc']} ({st['msg']})", event=ev)
+                continue           # derived datasets are outside the statement: refusing to cache them is acceptable
             if not st["own_frame_kept"]:
                 return dict(key="hist:derived-frame-replaced", what=f"event {i}: materialize(path) replaced the frame "
                             "of an already materialized derived dataset", event=ev)
@@ -1766,8 +1797,6 @@ def oracle_history_events(case, obs):
                 if not st.get("still_unmaterialized", True):
                     return dict(key="hist:raise-but-materialized", what=f"event {i}: materialize raised on the cut "
                                 "cache yet the dataset reports is_materialized", event=ev)
-                if ev["e"] == "newdf" and not st["file_unchanged"]:
-                    return dict(key="hist:cut-cache-rewritten", what=f"event {i}: the cut cache file was rewritten")
                 continue
             if not st["ok"]:
                 return dict(key=f"hist:materialize-raises:{before}",
@@ -1811,10 +1840,7 @@ def oracle_history_events(case, obs):
             if "fresh_raises" in st:
                 continue
             if not mat:
-                if st["ok"]:
-                    return dict(key="hist:convert-before-materialize", what=f"event {i}: convert_to_tensor_frame "
-                                "worked on an unmaterialized dataset")
-                continue
+                continue           # convert on an unmaterialized dataset: the statement demands nothing
             if not st["ok"]:
                 return dict(key="hist:convert-raises", what=f"event {i}: the converter of the (restored) dataset raised "
                             f"{st['exc']} ({st['msg']}) where the original converts", event=ev)
@@ -2322,15 +2348,18 @@ def coq_term(case, obs):
         for i, (ev, st) in enumerate(zip(case["events"], obs["steps"])):
             if "skipped" in st:
                 continue
-            mat_obs = lambda: (f"(IMat {coq_frame_obs(st['tf'])} {C.cz(digest(st['stats']))})"   # noqa: E731
-                               if st["ok"] else "IRaise")
+            # an observation equal to the segment's fresh frame is written as the shared binding `fo<ref>`
+            mat_obs = lambda: ((f"(IMat {'fo%d' % st['ref'] if st['tf'] == obs['refs'][st['ref']]['obs'] else coq_frame_obs(st['tf'])} "   # noqa: E731
+                                f"{C.cz(digest(st['stats']))})") if st["ok"] else "IRaise")
             if ev["e"] == "badstats":
                 continue                          # a failed call on a throw-away object: the world is unchanged
             if ev["e"] == "derived":
                 # Model/IOSup.v: d = cur[sel]; d.materialize(path or None, col_stats=...).  The harness runs it
                 # only while the file exists, where the selection itself cannot matter (identity stands for it).
+                if not st["ok"]:
+                    return None                   # the model mirrors the current no-op; a refusal is not compared
                 segs[-1][1].append(f"DER {C.cbool(ev.get('path', True))}")
-                segs[-1][2].append(f"(IDerived {C.cbool(not st['ok'])})")
+                segs[-1][2].append("(IDerived false)")
                 continue
             if ev["e"] == "rewrite":
                 if ev["how"] == "remove":         # no file, new object over the other table, materialize(path)
@@ -2360,16 +2389,21 @@ def coq_term(case, obs):
             else:
                 if "fresh_raises" in st:
                     return None
+                if st["ok"] and not st.get("cur_was_materialized", True):
+                    return None                   # the model mirrors the current raise; the statement does not demand it
                 evs.append(f"@Convert crows {C.cnat(i)}")
                 ios.append(f"(IConv {C.cbool(bool(st.get('same')))} {C.cnat(i)})" if st["ok"] else "IRaise")
         terms = []
+        used = sorted({rid for rid, _, _ in segs} | {st["ref"] for st in obs["steps"] if "ref" in st})
+        binds = "".join(f"let fo{rid} : frame_obs := {coq_frame_obs(obs['refs'][rid]['obs'])} in "
+                        f"let fr{rid} : tframe ctensor := {coq_frame(obs['refs'][rid]['raw'])} in " for rid in used)
         for rid, evs, ios in segs:
             r = obs["refs"][rid]
-            fresh = f"({coq_frame(r['raw'])}, {C.cz(digest(r['stats']))})"
+            fresh = f"(fr{rid}, {C.cz(digest(r['stats']))})"
             # every materialize of the segment is handed the same statistics argument (Model/IOSup.v)
             sup = f"(Some {C.cz(digest(['supplied', r['stats']]))})" if r.get("supplied") else "None"
             evsS = [f"DerivedMat (fun t => t) {e[4:]} {sup}" if e.startswith("DER ") else f"EvS {sup} ({e})" for e in evs]
             iosS = [i_ if i_.startswith("(IDerived") else f"(II {i_})" for i_ in ios]
             terms.append(f"check_historyS {sup} {fresh} {C.clist(evsS)} {C.clist(iosS)}")
-        return "(" + " && ".join(terms) + ")"
+        return "(" + binds + "(" + " && ".join(terms) + "))"
     return None
